@@ -411,9 +411,20 @@ func Run(c *hx.Ctx) {
 	d.After = r.after
 	r.d = d
 	var rin c16.Input
-	if c.ReplayInput(&rin) && rin.Raw != "" {
-		d.W = c16.NewWorld(c, c16.NewPool())
-		d.DoTx(rin, hx.UnHex(rin.Raw), nil)
+	if c.ReplayInput(&rin) {
+		// a failing input or the description of a correspondence case
+		switch {
+		case rin.Raw != "":
+			d.W = c16.NewWorld(c, c16.NewPool())
+			d.DoTx(rin, hx.UnHex(rin.Raw), nil)
+		case rin.Kind == "builder":
+			pool := c16.BuildPool(c, c.N(3, 6))
+			d.W = c16.NewWorld(c, pool)
+			for _, k := range pool.Keys {
+				c.CoqHeader(fmt.Sprintf("Definition %s : pubkey := %s.", k.Name, k.CoqFull()))
+			}
+			r.builders()
+		}
 		return
 	}
 	pool := c16.BuildPool(c, c.N(3, 6))
